@@ -18,6 +18,7 @@ RUN == INSTANCE Runtime
 EN == INSTANCE Entries
 CO == INSTANCE Consts
 CP == INSTANCE Compile
+CAP == INSTANCE Caps
 WR == INSTANCE WgpuRules
 OUT == INSTANCE Output
 
@@ -621,6 +622,10 @@ C17(c, o) ==
                ELSE {}) ]
   ELSE IF ValidatorRejects(c, o) THEN
     [ dom |-> TRUE, m |-> m, fails |->
+        (* Caps.tla as the second oracle of the gate: a module that is valid with every capability is refused only for a missing capability *)
+        (IF HasS(c) /\ ValidAll(o) /\ CAP!GateAccepts(c.S, c.opts.validate)
+         THEN { "ORACLE the validator refuses this module under " \o c.opts.validate \o " but Caps.tla says it needs only " \o ToJson(CAP!RequiredCaps(c.S)) } ELSE {})
+        \cup
         Chk(ph = << "parsed" >>, "phases before the validation gate: " \o ToJson(ph) \o " (expected only parsed)")
         \cup Chk(o.ret.kind # "panic", "panic on a module the validator rejects: " \o (IF Has(o.ret, "msg") THEN o.ret.msg ELSE ""))
         \cup Chk(o.ret.kind # "ok", "Ok returned for a module the validator rejects")
@@ -632,7 +637,9 @@ C17(c, o) ==
   ELSE
     (* the source passes the gates that were requested: validation must change nothing *)
     [ dom |-> TRUE,
-      fails |-> Chk(~(o.ret.kind = "err" /\ o.ret.err \in {"ParseError", "ValidationError"}), "parse/validation error for a source that passes: " \o (IF Has(o.ret, "display") THEN o.ret.display ELSE ""))
+      fails |-> (IF HasS(c) /\ ValidAll(o) /\ c.opts.validate # "none" /\ ~CAP!GateAccepts(c.S, c.opts.validate)
+                 THEN { "ORACLE the validator accepts this module under " \o c.opts.validate \o " but Caps.tla says it needs " \o ToJson(CAP!RequiredCaps(c.S)) } ELSE {})
+                \cup Chk(~(o.ret.kind = "err" /\ o.ret.err \in {"ParseError", "ValidationError"}), "parse/validation error for a source that passes: " \o (IF Has(o.ret, "display") THEN o.ret.display ELSE ""))
                 \cup (IF RetOk(o) THEN Chk(ph = PhaseSeq, "HOOK phase events of a successful call are " \o ToJson(ph)) ELSE {})
                 \cup SameOrNew(m, k, IF RetOk(o) THEN o.text_sha ELSE o.ret.kind, "enabling validation changed the result"),
       m |-> MPut(m, k, IF RetOk(o) THEN o.text_sha ELSE o.ret.kind) ]
